@@ -302,27 +302,78 @@ func TestC12Ints(t *testing.T) {
 	})
 }
 
-// FuzzC12: valid prefix followed by junk must never yield an offset beyond the bytes supplied.
+// FuzzC12: the fuzzer's bytes are decoded into a sequence of multi-bulk commands (the property's domain: inline commands
+// and other junk are NOT part of it) followed by a truncated multi-bulk command; the stream is read through a small buffer
+// with a generated fragmentation. Every command must come back with exactly its arguments and with the offset of its last
+// byte, and the truncated tail must never be reported as a command.
 func FuzzC12(f *testing.F) {
-	f.Add([]byte("*1\r\n$4\r\nPING\r\n"), []byte("*2\r\n$3\r\nfoo"), uint8(16))
-	f.Add([]byte("*3\r\n$3\r\nSET\r\n$1\r\na\r\n$0\r\n\r\n"), []byte("\n\n*1\r\n$-1\r\n"), uint8(3))
-	f.Add([]byte{}, []byte("PING\r\n*-1\r\n$5\r\nab"), uint8(1))
-	f.Fuzz(func(t *testing.T, valid []byte, junk []byte, frag uint8) {
+	f.Add([]byte("\x01\x01\x04"), uint16(3), uint8(16))
+	f.Add([]byte("\x02\x03\x00\x01a\x00\x02\x01\x02\r\n"), uint16(9), uint8(3))
+	f.Add([]byte("\x03\x01\x00\x02\x01\x01*\x05$-1\r\n\x02\x03\x28abcdefghijklmnopqrstuvwxyz0123456789ABCD"), uint16(1), uint8(1))
+	f.Fuzz(func(t *testing.T, blob []byte, cut uint16, frag uint8) {
 		st := pbt.For(prop)
 		st.Case()
 		st.Eval(1)
-		data := append(append([]byte{}, valid...), junk...)
+		pos := 0
+		next := func() byte {
+			if pos < len(blob) {
+				pos++
+				return blob[pos-1]
+			}
+			return 0
+		}
+		ncmd := int(next()%4) + 1
+		var cmds [][][]byte
+		for i := 0; i < ncmd+1; i++ { // the last one becomes the truncated tail
+			argc := int(next()%6) + 1
+			// the command name is a name (ASCII, non-empty); everything else is arbitrary bytes
+			args := [][]byte{[]byte([]string{"SET", "del", "HSET", "x", "PING", "zadd", "EVAL", "json.set"}[next()%8])}
+			for a := 1; a < argc; a++ {
+				n := int(next() % 48)
+				arg := make([]byte, 0, n)
+				for k := 0; k < n; k++ {
+					arg = append(arg, next())
+				}
+				args = append(args, arg)
+			}
+			cmds = append(cmds, args)
+		}
+		var data []byte
+		var ends []int64
+		for _, c := range cmds[:ncmd] {
+			data = append(data, resp.Cmd(c...)...)
+			ends = append(ends, int64(len(data)))
+		}
+		tail := resp.Cmd(cmds[ncmd]...)
+		data = append(data, tail[:int(cut)%len(tail)]...)
 		fr := &fragReader{data: data, frags: []int{int(frag%64) + 1}}
 		dec := client.NewDecoder(bufio.NewReaderSize(fr, 16))
-		for i := 0; i < 1000; i++ {
-			_, off, err := client.MustDecodeOpt(dec)
+		cj := func() []byte { return pbt.JSON(map[string]any{"blob": blob, "cut": cut, "frag": frag}) }
+		for i := 0; i < ncmd; i++ {
+			r, off, err := client.MustDecodeOpt(dec)
 			if err != nil {
+				st.Fail(t, "decode-error", fmt.Sprintf("command %d of %d: %v", i, ncmd, err), cj(), nil)
 				return
 			}
-			if off > int64(len(data)) {
-				cj := pbt.JSON(map[string]any{"valid": valid, "junk": junk, "frag": frag})
-				st.Fail(t, "offset-beyond-input", fmt.Sprintf("offset %d > %d bytes supplied", off, len(data)), cj, nil)
+			if off != ends[i] {
+				st.Fail(t, "offset-mismatch", fmt.Sprintf("command %d ends at byte %d, the decoder says %d", i, ends[i], off), cj(), nil)
+				return
 			}
+			name, args, perr := client.ParseArgs(r)
+			if perr != nil || len(args) != len(cmds[i])-1 {
+				st.Fail(t, "args-differ", fmt.Sprintf("command %d: %d arguments (%v), sent %d", i, len(args)+1, perr, len(cmds[i])), cj(), nil)
+				return
+			}
+			_ = name
+			for a := range args {
+				if !bytes.Equal(args[a], cmds[i][a+1]) {
+					st.Fail(t, "args-differ", fmt.Sprintf("command %d argument %d: %q, sent %q", i, a+1, args[a], cmds[i][a+1]), cj(), nil)
+					return
+				}
+			}
+		}
+		if _, off, err := client.MustDecodeOpt(dec); err == nil {
+			st.Fail(t, "truncated-command-reported", fmt.Sprintf("a command cut after %d of %d bytes was reported as complete (offset %d of %d bytes supplied)", int(cut)%len(tail), len(tail), off, len(data)), cj(), nil)
 		}
 	})
 }
